@@ -107,6 +107,12 @@ func toHCLDec(s *gen.SpecM) hcldec.Spec {
 		return transformSpec(s)
 	case gen.SValidate:
 		return &hcldec.ValidateSpec{Wrapped: toHCLDec(s.Nested), Func: validateFn}
+	case gen.SExpr:
+		expr, diags := hclsyntax.ParseExpression([]byte(s.ExprVar), "spec.hcl", hcl.InitialPos)
+		if diags.HasErrors() {
+			panic(diags.Error())
+		}
+		return &hcldec.ExprSpec{Expr: expr}
 	case gen.SRefine:
 		return &hcldec.RefineValueSpec{Wrapped: toHCLDec(s.Nested), Refine: func(b *cty.RefinementBuilder) *cty.RefinementBuilder { return b }}
 	}
